@@ -156,7 +156,7 @@ def probe_cmp():
 
 
 def make_options(opts):
-    return [dns.edns.GenericOption(code, bytes([fill]) * ln) for code, ln, fill in opts]
+    return [dns.edns.GenericOption(code, bytes(body)) for code, body in opts]
 
 
 def hdr_flags(h):
@@ -191,7 +191,7 @@ def low_level(script, rel, max_size=65535):
             osize = 0
             if pad:
                 # add_opt with padding; osize = size of the OPT record with an empty padding option
-                osize = 11 + sum(4 + o[1] for o in e[4]) + 4
+                osize = 11 + sum(4 + len(o[1]) for o in e[4]) + 4
                 opt = dns.renderer._make_opt(opt_ttl(h), e[3], make_options(e[4]))
                 res, exc = call(r.add_opt, opt, pad, osize, 0)
             else:
@@ -278,19 +278,31 @@ def proj_message(m, rel):
     return p
 
 
-def high_level(script, rel, mode):
+def high_level(script, rel, mode, variants=False):
     e = {"op": "msg", "mode": mode}
     try:
         m = build_message(script, rel, mode)
         e["orig"] = proj_message(m, rel)
-        wire = m.to_wire(want_shuffle=False)
+        # explicit limit: a message built with use_edns() would otherwise be limited to the payload it advertises
+        wire = m.to_wire(max_size=65535, want_shuffle=False)
         e["wire"] = list(wire)
+        # TCP framing: 2-octet length + the same message
+        e["wirep"] = list(m.to_wire(max_size=65535, want_shuffle=False, prepend_length=True))
         m2 = dns.message.from_wire(wire, origin=ORIGIN if rel else None)
         e["parsed"] = proj_message(m2, rel)
         e["eq"] = bool(m == m2) and bool(m2 == m)
         e["cls2"] = type(m2).__name__
         e["eqn"] = _norm(e["orig"]["sections"], True) == _norm(e["parsed"]["sections"], False)
+        # re-render of the PARSED message with default arguments (no explicit limit)
         e["wire2"] = list(m2.to_wire(want_shuffle=False))
+        if variants:
+            org = ORIGIN if rel else None
+            m3 = dns.message.from_wire(wire, origin=org, one_rr_per_rrset=True)
+            m4 = dns.message.from_wire(wire + b"\x00\x07junk", origin=org, ignore_trailing=True)
+            m5 = dns.message.from_wire(wire, origin=org, question_only=True)
+            e["var"] = {"onerr": proj_message(m3, rel), "wire1": list(m3.to_wire(want_shuffle=False)),
+                        "trail": proj_message(m4, rel), "qonly": proj_message(m5, rel),
+                        "wirep2": list(m2.to_wire(want_shuffle=False, prepend_length=True))}
         e["res"] = "ok"
     except Exception as ex:  # recorded, judged by the trace specification
         e["res"] = "err"
@@ -298,8 +310,9 @@ def high_level(script, rel, mode):
         for k in ("orig", "parsed"):
             e.setdefault(k, {"id": 0, "flags": 0, "rcode": 0, "opcode": 0, "edns": -1, "eflags": [0, 0], "payload": 0,
                              "options": [], "sections": [[], [], [], []]})
-        for k in ("wire", "wire2"):
+        for k in ("wire", "wire2", "wirep"):
             e.setdefault(k, [])
+        e.pop("var", None)
         e.setdefault("eq", False)
         e.setdefault("cls2", "")
     return e
@@ -358,14 +371,15 @@ def probe_cmp_cached():
 def run_job(job):
     """job = (tid, script, mode)"""
     global _CMP
-    tid, script, mode = job
+    tid, script, mode = job[:3]
+    variants = len(job) > 3 and job[3]
     try:
         if _CMP is None:
             _CMP = probe_cmp()
         rel = bool(script[0]["origin"])
         ev = low_level(script, rel)
         if mode != "low":
-            ev.append(high_level(script, rel, mode))
+            ev.append(high_level(script, rel, mode, variants))
         return {"tid": tid, "cmp": _CMP, "rel": rel, "hdr": script[0], "mode": mode, "ev": ev}
     except Exception as ex:
         return {"tid": tid, "cmp": {"NS": [True, True], "SOA": [True, True], "SRV": [True, True], "RRSIG": [False, False]},
